@@ -189,10 +189,10 @@ are exactly, in order, the actions the interpreter records when it runs the meth
 (either file) — and that traced run ends in the state and result of the sequential step.  A closure handed to `Compute` is one action; a call that the source splits differently (a second map
 call, a clock read moved out of a closure) no longer matches. -/
 theorem C02_steps_are_source_actions (g : G K V) (op : COp K V) :
-    (∃ cs t, DeepTrace.soloTrace g L.init (Proofs.ConcCacheSolo.start op :: cs) = some t ∧
+    (∃ cs t, DeepTraceCommon.soloTrace g L.init (Proofs.ConcCacheSolo.start op :: cs) = some t ∧
       Deep.deepTrace Deep.twinMapTr (view g) (toSpec op) =
         some ((Cache.step (view g) (toSpec op)).1, (Cache.step (view g) (toSpec op)).2, t)) ∧
-    (∃ cs t, DeepTrace.soloTrace g L.init (Proofs.ConcCacheSolo.start op :: cs) = some t ∧
+    (∃ cs t, DeepTraceCommon.soloTrace g L.init (Proofs.ConcCacheSolo.start op :: cs) = some t ∧
       Deep.deepTrace Deep.twinMapOfTr (view g) (toSpec op) =
         some ((Cache.step (view g) (toSpec op)).1, (Cache.step (view g) (toSpec op)).2, t)) :=
   ⟨DeepTrace.trace_eq g op, DeepTraceOf.trace_eq g op⟩
